@@ -1,6 +1,7 @@
 package main
 
 import (
+	"fmt"
 	"strings"
 
 	"golang.org/x/tools/go/ssa"
@@ -149,6 +150,206 @@ func init() {
 				} else {
 					r.OK(fk, "clamped removal has no unclamped counterpart", "no exact counterpart of the clamped amount in this function", r.P(call))
 				}
+			}
+		}})
+}
+
+// C13.weightexact: the weight a claim multiplies the index difference with must be the position's exact token value.
+// The index increment was computed by dividing the coins by the validator's EXACT token total (a Dec); a weight that
+// went through the reported balance - plus 0.01 (types.Rounder), truncated to whole base units - makes the weights of
+// a validator's positions sum to something else than that total: truncation under-pays every claim by
+// index x fractional part (unbounded in base units), the rounder over-pays positions whose value ends in .99 and
+// above (the pool is short).
+func init() {
+	register(&Rule{ID: "C13.weightexact", Props: []string{"C13", "C12"}, Floor: 1,
+		Doc: "the claim weight is the exact token value of the position, not its reported (rounded, truncated) balance",
+		Run: func(e *Engine, r *RuleRun) {
+			fn := r.Need("keeper.accumulateRewards")
+			if fn == nil {
+				return
+			}
+			fk := FuncKey(fn)
+			rep := CallsTo(fn, "types.GetDelegationTokens", "types.GetDelegationTokensWithShares")
+			if len(rep) > 0 {
+				r.Bad(fk, "claim weight is the exact token value", "accumulateRewards weighs the position with types.GetDelegationTokens, the balance reported to users: value + 0.01 truncated to whole base units, while the index was built from the validator's exact decimal token total. After any take-rate deduction or slash positions have fractional values: every claim loses index difference x fractional part (hunt: 778 and 334 units on two claims, 1 113 units unclaimable) and a position worth x.995 is weighted x+1 and is paid more than the pool received for it (7 550 704 wanted, 7 512 951 received: insufficient funds)", nil, r.P(rep[0]))
+				return
+			}
+			r.OK(fk, "claim weight is the exact token value", "no reported-balance helper in the claim weight", e.Pos(fn.Pos()))
+		}})
+
+	// C03.dustpair: ClearDustDelegation removes a validator's left-over ValidatorShares when its token value is zero;
+	// the same amount must leave the asset's share total.
+	register(&Rule{ID: "C03.dustpair", Props: []string{"C03"}, Floor: 1,
+		Doc: "validator shares removed as dust also leave the asset's share total",
+		Run: func(e *Engine, r *RuleRun) {
+			fn := r.Need("keeper.Keeper.ClearDustDelegation")
+			if fn == nil {
+				return
+			}
+			fk, fa := FuncKey(fn), e.FA(fn)
+			var rem ssa.CallInstruction
+			for _, c := range CallsTo(fn, "keeper.Keeper.updateValidatorShares") {
+				if argT(fa, c, 4).Name == "false" {
+					rem = c
+				}
+			}
+			for _, c := range CallsTo(fn, "types.AllianceValidator.ReduceShares") {
+				rem = c
+			}
+			if rem == nil {
+				r.OK(fk, "dust validator shares leave the asset total too", "ClearDustDelegation removes no validator shares", e.Pos(fn.Pos()))
+				return
+			}
+			lowersAsset := false
+			for _, st := range StoresToField(fn, "types.AllianceAsset", "TotalValidatorShares") {
+				if t := fa.Term(st.Val); t.IsCall("math.LegacyDec.Sub") {
+					lowersAsset = true
+				}
+			}
+			r.Check(lowersAsset, fk, "dust validator shares leave the asset total too", "asset.TotalValidatorShares lowered by the removed validator shares", "ClearDustDelegation strips a validator's remaining ValidatorShares of the denom when its token value computes to zero, but never subtracts them from asset.TotalValidatorShares: after a full exit whose share amount rounded down the remainder stays in the asset total (hunt: validators sum 39900000.0, asset total 39900000.000000000002) until the staked total returns to zero", r.P(rem))
+		}})
+}
+
+// C09.settlefirst: the take-rate hook applies (1-r)^n for ALL n whole intervals since the module-wide clock to the
+// totals, rates and start times as they stand when it runs (end of block).  "Never retroactive" therefore needs every
+// change of what the rate applies to - new stake, a new rate, an asset becoming chargeable - to be preceded by a
+// settlement of the intervals that have already elapsed.  With one interval per block at most this is the "interval
+// in progress" the property allows; with a block gap, or an interval shorter than the block time (any positive
+// interval is accepted), n >= 2 and the excess is charged to stake, rates and assets that were not there.
+func init() {
+	register(&Rule{ID: "C09.settlefirst", Props: []string{"C09", "C14"}, Floor: 3,
+		Doc: "changes of stake, take rate and chargeability are preceded by a settlement of the elapsed take-rate intervals",
+		Run: func(e *Engine, r *RuleRun) {
+			settles := func(fn *ssa.Function, before ssa.Instruction) bool {
+				fa := e.FA(fn)
+				for _, c := range Calls(fn) {
+					callee := c.Common().StaticCallee()
+					if callee == nil {
+						continue
+					}
+					reach := false
+					for _, f := range e.Reach(callee) {
+						if FuncKey(f) == "keeper.Keeper.DeductAssetsWithTakeRate" {
+							reach = true
+						}
+					}
+					if FuncKey(callee) == "keeper.Keeper.DeductAssetsWithTakeRate" {
+						reach = true
+					}
+					if reach && fa.Dominates(c, before) {
+						return true
+					}
+				}
+				return false
+			}
+			// (1) stake added
+			if fn := r.Need("keeper.Keeper.Delegate"); fn != nil {
+				fa := e.FA(fn)
+				for _, st := range StoresToField(fn, "types.AllianceAsset", "TotalTokens") {
+					if t := fa.Term(st.Val); t.IsCall("math.Int.Add") {
+						r.Check(settles(fn, st), FuncKey(fn), "stake added after the elapsed take-rate intervals were settled", "dominated by a take-rate settlement", "Delegate raises asset.TotalTokens without settling the take-rate intervals that have elapsed since the clock; the end blocker of the same block charges (1-r)^n on the new total: with a 5-minute interval and a block one hour after the clock (or an interval shorter than the block time) a deposit of 1 000 000 000 is worth 886 384 871 at the end of the block in which it was made (0.99^12)", r.P(st))
+					}
+				}
+			}
+			// (2) rate changed
+			if fn := r.Need("keeper.Keeper.UpdateAllianceAsset"); fn != nil {
+				sets := CallsTo(fn, "keeper.Keeper.SetAsset")
+				if len(sets) > 0 {
+					r.Check(settles(fn, sets[0]), FuncKey(fn), "take rate changed after the elapsed intervals were settled at the old rate", "dominated by a take-rate settlement", "UpdateAllianceAsset stores a new take rate without settling the elapsed intervals at the old one: raising the rate from 0 to 1% one hour after the clock charges all 12 elapsed intervals at 1% (1e9 -> 886 384 871)", r.P(sets[0]))
+				}
+			}
+			// (3) an asset becoming chargeable: n is counted from the module-wide clock only
+			if fn := r.Need("keeper.Keeper.DeductAssetsWithTakeRate"); fn != nil {
+				fa := e.FA(fn)
+				bounded := false
+				for _, c := range CallsTo(fn, "math.LegacyDec.Power") {
+					if strings.Contains(argT(fa, c, 0).String(), "RewardStartTime") {
+						bounded = true
+					}
+				}
+				r.Check(bounded, FuncKey(fn), "interval count of an asset is bounded by its own reward start time", "n counted from max(clock, asset.RewardStartTime)", "the number of intervals charged is counted from the module-wide clock for every asset that is chargeable now: an asset whose reward start time lies inside the elapsed period is charged for intervals that ended before it started (start 3 minutes before a block that comes one hour after the clock: 12 intervals charged, 11 ended before the start; with regular blocks the interval [00:54,00:59] is charged to an asset that started at 01:00)", e.Pos(fn.Pos()))
+			}
+		}})
+}
+
+// C04.emptypool: the "empty pool" shortcuts of the share-price helpers (one share per token / all tokens for zero
+// shares) are only right when the pool has neither shares nor tokens.  They test the shares alone, and shares can
+// reach zero while tokens stay: a validator slash with effective fraction 1 zeroes asset.TotalValidatorShares and
+// leaves asset.TotalTokens; the redelegation slash zeroes a validator's delegator-share total and leaves its tokens.
+func init() {
+	register(&Rule{ID: "C04.emptypool", Props: []string{"C04", "C06"}, Floor: 2,
+		Doc: "the empty-pool shortcuts of the share-price helpers test tokens as well as shares",
+		Run: func(e *Engine, r *RuleRun) {
+			for _, k := range []string{"types.ConvertNewTokenToShares", "types.ConvertNewShareToDecToken"} {
+				fn := r.Need(k)
+				if fn == nil {
+					continue
+				}
+				fa := e.FA(fn)
+				n := 0
+				for _, ret := range Returns(fn) {
+					// the shortcut return: reached through the true edge of totalShares.IsZero()
+					isShortcut := fa.HasGuard(ret, func(g Guard) bool {
+						return g.Pos && g.Cond.IsCall("math.LegacyDec.IsZero") && g.Cond.Args[0].String() == "$totalShares"
+					})
+					if !isShortcut {
+						continue
+					}
+					n++
+					alsoTokens := fa.HasGuard(ret, func(g Guard) bool {
+						return g.Pos && g.Cond.IsCall("math.LegacyDec.IsZero") && g.Cond.Args[0].String() == "$totalTokens"
+					})
+					r.Check(alsoTokens, k, "empty-pool shortcut requires zero tokens as well", "shortcut dominated by totalTokens.IsZero() too", "the shortcut for `no shares yet` is taken whenever the share total is zero, whatever the pool holds: after every validator holding an asset was slashed with effective fraction 1 (x/staking computes the fraction from the power at the infraction height, which can exceed the validator's current tokens) asset.TotalValidatorShares is 0 while 1 000 000 tokens are staked; the slashed position still reports 1 000 000 (the 100% slash had no effect), and the next delegation of ONE unit is issued shares 1:1, owns the whole total (1 000 001) and can undelegate it", r.P(ret))
+				}
+				if n == 0 {
+					r.Undecided(k, "empty-pool shortcut requires zero tokens as well", "no return guarded by totalShares.IsZero() found")
+				}
+			}
+		}})
+
+	// F.units: one tolerance constant, one unit.  types.Rounder (0.01) is added to TOKEN values when a balance is
+	// reported and compared with SHARE differences when an amount is validated.  The two agree only while a share is
+	// worth exactly one token.
+	register(&Rule{ID: "F.units", Props: []string{"C20", "C05"}, Floor: 2,
+		Doc: "the rounding tolerance is applied in one unit (tokens or shares), not both",
+		Run: func(e *Engine, r *RuleRun) {
+			unitOf := map[string]string{
+				"types.GetDelegationTokens":             "tokens (added to the token value before it is truncated for the reported balance)",
+				"types.GetDelegationTokensWithShares":   "tokens (added to the token value of a share amount)",
+				"keeper.Keeper.ValidateDelegatedAmount": "shares (compared with |position shares - requested shares|)",
+			}
+			units := map[string][]string{}
+			var pos = map[string]string{}
+			for _, fn := range e.SMFuncs() {
+				for _, b := range fn.Blocks {
+					for _, in := range b.Instrs {
+						u, ok := in.(*ssa.UnOp)
+						if !ok {
+							continue
+						}
+						g, ok := u.X.(*ssa.Global)
+						if !ok || g.Name() != "Rounder" {
+							continue
+						}
+						fk := FuncKey(topFunc(fn))
+						what, known := unitOf[fk]
+						if !known {
+							r.Bad(fk, "use of types.Rounder", "types.Rounder is used in a function that is not in the reviewed unit table", nil, r.P(in))
+							continue
+						}
+						unit := strings.SplitN(what, " ", 2)[0]
+						units[unit] = append(units[unit], fk)
+						pos[fk] = r.P(in)
+					}
+				}
+			}
+			r.Check(len(units) >= 1, "-", "uses of types.Rounder classified", fmt.Sprintf("%d unit(s): %v", len(units), units), "types.Rounder is not used any more")
+			if len(units["tokens"]) > 0 && len(units["shares"]) > 0 {
+				for _, fk := range units["shares"] {
+					r.Bad(fk, "tolerance unit agrees with the reported balance", "types.Rounder is a TOKEN amount where balances are reported ("+strings.Join(units["tokens"], ", ")+") and a SHARE amount here: once a share is worth less than a token (after any slash or take-rate deduction) a balance rounded up by less than 0.01 token needs more than 0.01 extra shares, so the reported balance is rejected (hunt, 6-decimal amounts and default slashing: reported 594 119, MsgUndelegate and MsgRedelegate of 594 119 fail with insufficient shares, 594 118 succeeds)", nil, pos[fk])
+				}
+			} else {
+				r.OK("-", "tolerance unit agrees with the reported balance", "one unit only", "")
 			}
 		}})
 }
